@@ -234,15 +234,46 @@ def parse_counterexample(out):
 
 
 def parse_prints(out):
-    """Values printed with PrintT(<<"VERIF", x>>) — one per line — are collected."""
+    """Values printed with PrintT(<<"VERIF", x...>>) are collected.  TLC wraps long values over several lines:
+    lines are accumulated until the brackets balance.  A value that cannot be parsed is a machinery failure
+    (never silently dropped: a dropped verdict would read as acceptance)."""
     vals = []
-    for line in out.splitlines():
-        if line.startswith('<<"VERIF"'):
+    lines = out.splitlines()
+    i = 0
+    while i < len(lines):
+        line = lines[i]
+        if re.match(r'^<<\s*"VERIF"', line):
+            buf = line
+            while _depth(buf) > 0 and i + 1 < len(lines):
+                i += 1
+                buf += " " + lines[i].strip()
             try:
-                vals.append(tlaparse.parse_value(line)[1:])
-            except Exception:
-                pass
+                vals.append(tlaparse.parse_value(buf)[1:])
+            except Exception as e:
+                raise TlcFailure(f"cannot parse TLC verdict line: {buf[:300]} ({e})")
+        i += 1
     return vals
+
+
+def _depth(text):
+    d = 0
+    instr = False
+    k = 0
+    while k < len(text):
+        c = text[k]
+        if c == '"':
+            instr = not instr
+        elif not instr:
+            if text.startswith("<<", k) or c in "{[(":
+                d += 1
+                if text.startswith("<<", k):
+                    k += 1
+            elif text.startswith(">>", k) or c in "}])":
+                d -= 1
+                if text.startswith(">>", k):
+                    k += 1
+        k += 1
+    return d
 
 
 _RE_SIM_STATE = re.compile(r"^\\\* <?([^>\n]*)>?\s*\nSTATE_(\d+) ==\s*\n((?:(?!^\\\*|^STATE_|^====).*\n?)*)", re.M)
